@@ -337,6 +337,18 @@ func (m *mon) c05() {
 	}
 	for _, b := range m.e.batches {
 		for _, c := range m.e.calls {
+			if c.name == "BWait" && c.arg == "b"+strconv.Itoa(b.idx) && c.tRet < 0 && !m.s.Livelock && len(m.s.Panics) == 0 && b.tRet >= 0 {
+				// still asleep at the end: wrong once every item is over (ran, was rejected, cancelled or purged)
+				over := true
+				for _, s := range b.items {
+					if !(s.rejected || s.purgedAt >= 0 || len(s.tExit) > 0 || len(s.closeNil) > 0 || !s.accepted) {
+						over = false
+					}
+				}
+				if over {
+					m.add("C05", "batch-wait-blocked", "Wait on batch b%d (%d items, all finished / rejected / cancelled) never returned", b.idx, len(b.items))
+				}
+			}
 			if c.name != "BWait" || c.arg != "b"+strconv.Itoa(b.idx) || c.tRet < 0 {
 				continue
 			}
@@ -537,17 +549,32 @@ func (m *mon) c08() {
 			continue
 		}
 		want := map[string]int{}
+		// items submitted without an ID are named by the generator: each gets a name of its own,
+		// the one its worker function saw, and its result carries that name
+		names := map[string]int{}
+		for _, s := range b.items {
+			if len(s.seenID) > 0 {
+				if d, dup := names[s.seenID[0]]; dup && d != s.data {
+					m.add("C08", "shared-id", "batch b%d: items d%d and d%d ran under the same job id %q", b.idx, d, s.data, s.seenID[0])
+				}
+				names[s.seenID[0]] = s.data
+			}
+		}
 		for _, s := range b.items {
 			if len(s.tExit) == 0 {
 				continue
 			}
+			id := s.id
+			if id == "" && len(s.seenID) > 0 {
+				id = s.seenID[0]
+			}
 			switch {
 			case m.e.kind == kResult && s.outcome == oOK:
-				want[fmt.Sprintf("%s:%d,nil", s.id, s.data*10)]++
+				want[fmt.Sprintf("%s:%d,nil", id, s.data*10)]++
 			case m.e.kind == kResult && s.outcome == oErr:
-				want[fmt.Sprintf("%s:0,err:fail-%d", s.id, s.data)]++
+				want[fmt.Sprintf("%s:0,err:fail-%d", id, s.data)]++
 			case m.e.kind == kResult:
-				want[fmt.Sprintf("%s:0,err:panic_recovered_inside_result-worker:_%s", s.id, panicText(s.data))]++
+				want[fmt.Sprintf("%s:0,err:panic_recovered_inside_result-worker:_%s", id, panicText(s.data))]++
 			case m.e.kind == kErr && s.outcome == oErr:
 				want[fmt.Sprintf("err:fail-%d", s.data)]++
 			case m.e.kind == kErr && s.outcome == oPanic:
@@ -662,7 +689,24 @@ func (m *mon) c10() {
 			}
 		}
 	}
-	// purge: every job pending at quiescence that was "purged" must be closed (waiters released): handled by C05 blocked-forever
+	// purge: a job that Purge took out of its queue is cancelled — its handle reads Closed once the
+	// system is at rest (its waiters are C05's matter)
+	if m.clean() {
+		purged := map[int]int{}
+		for i, ev := range m.s.Log {
+			if ev.Kind == "q:purged" {
+				purged[ev.Obj] = i
+			}
+		}
+		for _, s := range m.e.subs {
+			if s.jobPtr == nil || s.handle == nil {
+				continue
+			}
+			if t, ok := purged[m.s.ObjID(s.jobPtr)]; ok && len(s.tEnter) == 0 && !s.handle.IsClosed() {
+				m.add("C10", "purged-not-cancelled", "job d%d was removed from its queue by Purge (t=%d) but its handle still reads %s at rest", s.data, t, s.handle.Status())
+			}
+		}
+	}
 }
 
 // C16 — job status only moves forward
